@@ -599,13 +599,15 @@ def check_c08(tier, seed):
     cov = {
         "evaluations": evals,
         "distinct_nontrivial": max(r["distinct_nontrivial"] for _, r in results),
-        "rule": "a case is a seeded program (1-12 public ops over a register file) with a materialised POISON_LANE3 fault plan, "
+        "rule": "a case is either a grid program (one op; every op x padded argument position x poison class x public route x operand "
+                "class, enumerated) or a seeded chain (1-12 public ops over a register file) with a materialised POISON_LANE3 fault plan, "
                 "executed under plans none / P / complement(P); distinct = (op, poisoned operand position, poison class) triples whose "
                 "poison actually reached an operand of that op (max over configurations)",
         "samples": ref["samples"][:2],
         "configurations_run": [c for c, _ in results],
         "configurations_skipped": skipped,
         "programs_per_configuration": {c: r["evaluations"] for c, r in results},
+        "grid_programs_per_configuration": {c: r["extra"].get("grid_programs") for c, r in results},
         "fault_kinds_fired": fired,
         "fault_kinds_effective": effective,
         "ops_under_test": ref["extra"]["ops_taking_padded_values"],
@@ -709,7 +711,7 @@ def check_c18(tier, seed):
     cfgs, skipped = available_configs(["sse2-rel", "sse2-dbg", "scalar", "coresimd"] + (["native"] if tier == "thorough" else []))
     build_all(cfgs)
     rounds = 2 if tier == "quick" else 24
-    samples = 48 if tier == "quick" else 4000
+    samples = 512 if tier == "quick" else 20000
     crash_viols = []
     try:
         det = selftest_determinism("sse2-rel", seed, [["c18p", "--samples", 8], ["c18m", "--rounds", 1]], seeds=2 if tier == "quick" else 8)
